@@ -9,6 +9,7 @@ from sim import gen, harness, history, ref_format, world
 from sim.core import substream
 
 PROP = 'C14'
+TECHNIQUE = 'deterministic simulation + refinement against an independent reference reader/writer of the repository format (both directions)'
 LEVEL = 'exploration'
 RULE = ('two directions per seed. forward: a seeded history (init, add-key, snapshots, delete, clean) after every command of which '
         'an independently written reader (sim/ref_format.py: hashlib + AEAD primitives only) decodes config, key files, every '
